@@ -132,7 +132,7 @@ Section More.
     destruct b as [d parts fail det|src]; cbn.
     - destruct (bget (dhex d) (rs r)); [|apply Ext_refl].
       assert (H := gguf_parts_ext lfl d parts r). destruct (gguf_parts size_of lfl r d parts) as [r1 [ls|]]; cbn in H; [|exact H].
-      destruct fail; [exact H|]. assert (H2 := add_detected_ext det r1 ls). destruct (add_detected size_of r1 ls det). cbn in *.
+      destruct (fail || match parts with [] => true | _ => false end); [exact H|]. assert (H2 := add_detected_ext det r1 ls). destruct (add_detected size_of r1 ls det). cbn in *.
       eapply Ext_trans; eassumption.
     - destruct (mget src (rs r)) as [[m|]|]; apply Ext_refl.
   Qed.
@@ -507,7 +507,7 @@ Section More.
     { cbn in Hq. destruct (cr_base q) as [d parts fail det|src]; cbn.
       - destruct (bget (dhex d) s); [|discriminate].
         destruct (gguf_parts size_of (layer_from_layer size_of) (init s) d parts) as [r1 [ls|]] eqn:Eg; [|discriminate].
-        destruct fail; [discriminate|]. intros ls'. assert (Hh : hasm ls) by (eapply (hasm_gguf_parts d parts (init s)); [exact Hq | rewrite Eg; reflexivity]).
+        destruct (fail || match parts with [] => true | _ => false end); [discriminate|]. intros ls'. assert (Hh : hasm ls) by (eapply (hasm_gguf_parts d parts (init s)); [exact Hq | rewrite Eg; reflexivity]).
         assert (H2 := hasm_add_detected det r1 ls Hh). destruct (add_detected size_of r1 ls det). cbn in *. intros [= <-]. exact H2.
       - destruct (mget src s) as [[msrc|]|] eqn:Es; try discriminate. cbn. intros ls Hf.
         eapply hasm_from_layers; [exact Hf|]. apply hasm_spec. apply (Hs src msrc). apply mget_listed, Es. }
